@@ -32,7 +32,8 @@ INTS = int_pool()
 FLOATS = [0.0, -0.0, 1.5, -1.5, 0.1, float('nan'), float('inf'),
           float('-inf'), 1e39, -1e39, 3.5e38, 3.4028235677973366e38,
           3.4028234663852886e38, 1e-50, 5e-324, 2.0**53 + 2, 1e308,
-          16777217.0]
+          16777217.0, 3.4028235e38, -3.4028235e38,
+          3.4028235677973362e38, -3.4028235677973366e38, 2.0 ** 128]
 DECIMALS = [D(s) for s in (
     '0', '-0', '1', '-1', '1.5', '-1.5', '0.1', '1E-7', '1.9E-11', '1E+3',
     '1.5E+3', '1E+9', '1E+10', '1E+30', '-1E+30', '1E-255', '1E-256',
